@@ -34,6 +34,9 @@ var hostile = []string{
 	"packet A { char[007] x, repeat char[1] y, }", "packet A { u8 k, match k as m { 99999999999999999999 : B, }, } packet B {}",
 	"packet \xff\xfe {}", "packet A {} \x00", "// only a comment", "//", "packet A { u8 x, } //", "packet A{u8 x `unterminated",
 	"root packet A { B b, } packet B { u8 x, }", "packet A { B b, }", "root packet A { } root packet B { }",
+	"root packet A { u8 t, Inner { u8 k, match k as body { 1 : B, }, }, } packet B { u8 x, }",
+	"root packet A { Inner { u32 s @calculatedFrom(\"X\"), Deep { B b, repeat B bs, }, }, } packet B { u8 x, }",
+	"root packet A { u8 k, match k as m { 1 : B, }, u8 k2, match k2 as m2 { 1 : B, 2 : C, }, } packet B { } packet C { string s, }",
 	strings.Repeat("{", 200), strings.Repeat("packet A { In { ", 50), strings.Repeat("[", 300),
 }
 
